@@ -740,6 +740,61 @@ def test_functions():
                                'xmlns:e="http://exslt.org/common"'), '<d/>', 'RTF,node-set,number', full=True)
 
 
+def test_libxslt_disagreements():
+    """Points where libxslt 1.1.35 was found to deviate (vf.tools.xslt_vs_libxslt);
+    the expected values below are derived from the Recommendation."""
+    # 5.6: apply-imports only sees what the CONTAINING stylesheet imports (not siblings of lower precedence)
+    files = {'mem:/m1.xsl': sheet(T('x', 'M1')), 'mem:/m2.xsl': sheet(T('x', '[<xsl:apply-imports/>]'))}
+    check('apply-imports-sibling', '<xsl:import href="m1.xsl"/><xsl:import href="m2.xsl"/>', '<x>t</x>', '[t]', files=files)
+    # apply-imports in a rule chosen for a text node through the built-in element rule
+    check('apply-imports-text', T('text()', '[<xsl:apply-imports/>]'), '<x>t</x>', '[t]')
+    # the current node stays what it was after apply-imports fell back to the built-in rule
+    check('apply-imports-context', T('/', '<xsl:apply-imports/><xsl:element name="e"><xsl:value-of select="name(*)"/></xsl:element>') + T('a', 'A'),
+          '<r><a/></r>', 'A<e>r</e>')
+    # attribute nodes have no children
+    check('attr-no-children', T('d', '<xsl:for-each select="@*">[<xsl:apply-templates/>]</xsl:for-each>'), '<d k="v"/>', '[]')
+    # an unprefixed attribute name test is in no namespace
+    check('attr-pattern-ns', sheet(T('d', '<xsl:apply-templates select="@*"/>') + T('@k', 'K') + T('@p:k', 'PK'), 'xmlns:p="urn:p"'),
+          '<d xmlns:p="urn:p" p:k="1"/>', 'PK', full=True)
+    check('attr-pattern-ns-2', T('d', '<xsl:apply-templates select="@*"/>') + T('@k', 'K'), '<d xmlns:p="urn:p" p:k="v"/>', 'v')
+    # positional predicates in patterns count nodes selected by the step (expanded names)
+    check('pattern-position-ns', T('b[position() = 2]', 'SECOND') + T('b[1]', 'FIRST') + T('*', '<xsl:apply-templates/>', 'priority="-1"'),
+          '<d xmlns:p="urn:p"><p:b/><b/></d>', 'FIRST')
+    # 11.4 global variables are evaluated with the root node as current node wherever they are first used
+    check('global-context-lazy', '<xsl:variable name="g0" select="count(@*)"/><xsl:variable name="g1"><xsl:for-each select="*"><xsl:value-of select="$g0"/></xsl:for-each></xsl:variable>'
+          + T('/', '<xsl:value-of select="$g1"/>'), '<b x="1" y="2"/>', '0')
+    # an empty result tree fragment is still true; comparison uses the string-value of its root
+    check('rtf-empty-true-2', T('/', '<xsl:variable name="r"><xsl:text/></xsl:variable><xsl:value-of select="boolean($r)"/>,<xsl:value-of select="$r = \'\'"/>'), '<x/>', 'true,true')
+    check('rtf-eq-mixed', T('/', '<xsl:variable name="r"><o/>t</xsl:variable><xsl:value-of select="$r = \'t\'"/>,<xsl:value-of select="/ = \'ab\'"/>'), '<x>ab</x><!--c-->', 'true,true')
+    # 12.1 document() with one string argument: base URI of the stylesheet MODULE containing the expression
+    files2 = {'mem:/lib/m.xsl': sheet(T('x', '<xsl:param name="p" select="document(\'\')/*/*/@match"/><xsl:value-of select="$p"/>')), }
+    check('document-self-in-import', '<xsl:import href="lib/m.xsl"/>', '<x/>', 'x', files=files2)
+    # 11.2 the base URI of result tree fragment nodes is that of the variable-binding element
+    files3 = {'mem:/lib/m.xsl': sheet('<xsl:variable name="r"><o/></xsl:variable>' + T('x', '<xsl:value-of xmlns:e="http://exslt.org/common" select="document(\'e.xml\', e:node-set($r))/*"/>')),
+              'mem:/lib/e.xml': '<e>LIB</e>', 'mem:/e.xml': '<e>TOP</e>'}
+    check('rtf-base-uri', '<xsl:import href="lib/m.xsl"/>', '<x/>', 'LIB', files=files3)
+    # 10: secondary sort keys see the unsorted list too
+    check('sort-secondary-position', T('a', '<xsl:for-each select="i"><xsl:sort select="@k"/><xsl:sort select="position()" data-type="number" order="descending"/><xsl:value-of select="@n"/></xsl:for-each>'),
+          '<a><i k="" n="1"/><i k="0" n="2"/><i k="0" n="3"/><i k="" n="4"/></a>', '4132')
+    # xsl:attribute with a namespace attribute never changes the element's own name
+    check('attr-prefix-clash', sheet(T('/', '<p:o><xsl:attribute name="p:k" namespace="urn:z">v</xsl:attribute></p:o>'), 'xmlns:p="urn:p"'),
+          '<x/>', '<p:o xmlns:p="urn:p" xmlns:z="urn:z" z:k="v"/>', full=True)
+    check('attr-default-ns', sheet(T('/', '<o><xsl:attribute name="k" namespace="urn:d">v</xsl:attribute></o>'), 'xmlns="urn:d"'),
+          '<x/>', '<o xmlns="urn:d" xmlns:q="urn:d" q:k="v"/>', full=True)
+    check('element-prefix-clash', sheet(T('/', '<xsl:element name="p:e" namespace="urn:z"><xsl:attribute name="p:q">v</xsl:attribute></xsl:element>'), 'xmlns:p="urn:p"'),
+          '<x/>', '<z:e xmlns:z="urn:z" xmlns:p="urn:p" p:q="v"/>', full=True)
+    # 3.4 strip/preserve conflict: recovery = the last one
+    check('ws-conflict-last', '<xsl:strip-space elements="a b"/><xsl:preserve-space elements="b"/>' + T('/', '<xsl:value-of select="count(//text())"/>'),
+          '<a> <b> </b></a>', '1', recoveries=['3.4-strip-preserve-conflict'])
+    # variable with whitespace-only content: stripped from the stylesheet -> empty string, not a fragment
+    check_error('ws-only-variable-is-string', XSLTUnsupported,
+                sheet(T('/', '<xsl:variable name="v">\n</xsl:variable><xsl:value-of select="count(e:node-set($v))"/>'), 'xmlns:e="http://exslt.org/common"'), full=True)
+    # number('-') is NaN
+    check('number-minus', T('/', '<xsl:value-of select="substring(\'-1\', 1, 1) = 0"/>'), '<x/>', 'false')
+    # xsl:number level=any with from: the from node itself is not counted
+    check('number-any-from-excl', T('d', '<xsl:number level="any" count="a|d" from="a"/>'), '<a><d/></a>', '1')
+
+
 def test_output():
     COUNT[0] += 1
     files = {'mem:/i.xsl': sheet('<xsl:output method="html" indent="yes" encoding="latin1" cdata-section-elements="a"/>')}
